@@ -23,6 +23,8 @@
 (*   Lookup    GetMagicBlock(r) / GetDKG(r) of miner m                      *)
 (*   GroupSign the miners sign with the installed key shares, verify each   *)
 (*             other's shares and recover the group signature               *)
+(*   End       end of the trace (the model/code disagreements collected in  *)
+(*             `hb` are judged here, see the end of the module)             *)
 (* The actions consume the events and advance the MODEL state `cl` of the   *)
 (* clients with the step functions of VCClient.tla (the hidden loop         *)
 (* variables psr / retry live only there); the contract state is the        *)
@@ -221,7 +223,13 @@ H_Thresholds == (ev.ev = "Txn38" /\ st.dkg # {}) => (st.k = K0 /\ st.t = T0)
 (* the generator's payFees succeeds *)
 H_PayFees == (ev.ev = "Txn38" /\ ev.op = "payfees") => ev.result = "ok"
 (* the client state read back after a loop iteration / after ViewChange is the model's *)
-H_Client == ev.ev \in {"LoopEnd", "Adopt"} => ObsC(ev.c) = ProjC(tcl[ev.m])
+(* (the memory of a DKG process that panicked half-way through a phase function is not compared: what was done *)
+(* before the panic depends on Go's map iteration order; what it stored, and what ViewChange installs, is)     *)
+Durable(x) == <<x.sset, x.sshares, x.rset, x.rsr, x.rshares>>
+H_Client == /\ (ev.ev = "LoopEnd" /\ ~ev.crashed) => ObsC(ev.c) = ProjC(tcl[ev.m])
+            /\ (ev.ev = "LoopEnd" /\ ev.crashed) => Durable(ObsC(ev.c)) = Durable(ProjC(tcl[ev.m]))
+            /\ ev.ev = "Adopt" => IF tcl[ev.m].lp = "crashed" THEN Durable(ObsC(ev.c)) = Durable(ProjC(tcl[ev.m]))
+                                                            ELSE ObsC(ev.c) = ProjC(tcl[ev.m])
 H_LoopState == ev.ev = "LoopEnd" => /\ tcl[ev.m].lp = (IF ev.crashed THEN "crashed" ELSE "idle")
                                           /\ ev.delivered = dlv
                                           /\ tcl[ev.m].inbox = NoPn
@@ -251,7 +259,7 @@ H_Contents == ev.ev = "Txn38" =>
 (* the magic block in the block is the one the contract stored *)
 H_NewMB == ev.ev = "NewMB" => ef = sc.mb
 (* the projection names every share and key vector *)
-H_Named == ev.ev \in {"LoopEnd", "Adopt"} =>
+H_Named == (ev.ev \in {"LoopEnd", "Adopt"} /\ tcl[ev.m].lp # "crashed") =>
   \A m \in Miner : F(ev.c.vsh)[m] # 99 /\ F(ev.c.cmpk)[m] # 99 /\ F(ev.c.csos)[m] # 99 /\ F(ev.c.store.shares)[m] # 99
 
 (* The model/code agreement checks are collected while a trace is consumed and judged at its End event, so    *)
